@@ -501,7 +501,7 @@ VSsetname(int32       vkey, /* IN: Vdata key */
 
     /* get vdata itself and check it */
     vs = w->vs;
-    if (vs == NULL)
+    if (vs == NULL || vs->access != 'w')
         HGOTO_ERROR(DFE_BADPTR, FAIL);
 
     /* get current length of vdata name */
@@ -561,7 +561,7 @@ VSsetclass(int32       vkey, /* IN: vdata key */
 
     /* get vdata itself and check it */
     vs = w->vs;
-    if (vs == NULL)
+    if (vs == NULL || vs->access != 'w')
         HGOTO_ERROR(DFE_BADPTR, FAIL);
 
     /* get current length of vdata class name */
